@@ -42,6 +42,9 @@ VALID_PROPS = [
     'after (s or s2 as T {z iff w}): (a or b) causes (c as C or d) within 0.5 s',
     'globally: no a {x in [NAN to INF]}',
     'globally: no /ns/t {roll(m) < 1}',
+    'globally: no a {x < 9999999999999999999999999999999999999999999999999999999999999999999999999999999999999999999999999999999999999999999999999999999999999999999999999999999999999999999999999999999999999999999999999999999999999999999999999999999999999999999999999999999999999999999999999999999999999999999999999999999999999999999999 and y > -1000000000000000000000000000000000000000000000000000000000000000000000000000000000000000000000000000000000000000000000000000000000000000000000000000000000000000000000000000000000000000000000000000000000000000000000000000000000000000000000000000000000000000000000000000000000000000000000000000000000000000000000000000000000000000000}',
+    '# title: "To Infinity and NaN" # description: "-Infinity" globally: no /sensor/Infinity as NaN {s = "NaN" or Infinity > 0 or @NaN.Infinity = "Infinity"}',
+    'after a as M: no b {roll(@M) > 0} within 1e400 s',
 ]
 INVALID_PROPS = [
     ('syntax', 'globally: no'),
